@@ -208,7 +208,7 @@ def run_shard(spec, seed, tier):
             else:
                 out.append(f)
         return out
-    n = 300 if tier == "quick" else 4000
+    n = 1000 if tier == "quick" else 6000
     found = core.hyp_search(gen.message_case(opts=opts), body, seed, n)
     if found:
         res.failures.extend(found)
